@@ -600,7 +600,10 @@ class Interp:
 
     def exec_raise(self, s, env):
         if s.exc is None:
-            raise Unsupported("bare raise")
+            found, cur = env.lookup("$exc")
+            if found and isinstance(cur, PyRaise):
+                raise cur                       # re-raise the exception being handled
+            raise Unsupported("bare raise outside an exception handler")
         v = self.ev(s.exc, env)
         if isinstance(v, ExcClass):
             raise PyRaise(v.name, None, v.bases)
@@ -624,7 +627,15 @@ class Interp:
                     if any(e.isa(n) for n in names):
                         if h.name:
                             env.vars[h.name] = e
-                        self.exec_block(h.body, env)
+                        saved = env.vars.get("$exc")
+                        env.vars["$exc"] = e
+                        try:
+                            self.exec_block(h.body, env)
+                        finally:
+                            if saved is None:
+                                env.vars.pop("$exc", None)
+                            else:
+                                env.vars["$exc"] = saved
                         break
                 else:
                     raise
@@ -638,6 +649,8 @@ class Interp:
         v = self.ev(node, env)
         if isinstance(v, ExcClass):
             return v.name
+        if isinstance(v, ClassRef):
+            return v.name          # an exception class defined in the repository (its bases travel with the raised value)
         raise Unsupported("except clause %r" % (v,))
 
     def iter_values(self, it):
